@@ -107,11 +107,11 @@ class Game():
                             else 0)
             data_end_a = (start_addr + len(data) - start_a
                           if start_addr + len(data) < end_a
-                          else end_a)
+                          else end_a - start_a)
             text_start_a = (0 if start_addr > start_a
                             else start_a - start_addr)
             text_end_a = (len(data)
                           if start_addr + len(data) < end_a
-                          else -(start_addr + len(data) - end_a))
+                          else end_a - start_addr)
             section_data[data_start_a:data_end_a] = \
                 data[text_start_a:text_end_a]
